@@ -83,7 +83,9 @@ func (h *statusSessionHandler) HandlePacket(pc *proto.PacketContext) {
 var versionName = fmt.Sprintf("Gate %s", version.SupportedVersionsString)
 
 func newInitialPing(p *Proxy, protocol proto.Protocol) *ping.ServerPing {
-	if !version.Protocol(protocol).Supported() {
+	// Advertise the client's own protocol only if Gate really knows that version;
+	// any other number (unknown, legacy, negative) gets the newest supported one.
+	if v := version.Protocol(protocol).Version(); v == version.Unknown || v == version.Legacy {
 		protocol = version.MaximumVersion.Protocol
 	}
 	var modInfo *modinfo.ModInfo
@@ -119,7 +121,9 @@ func (h *statusSessionHandler) handleStatusRequest(pc *proto.PacketContext) {
 
 	log := h.log
 	if h.resolvePingResponse == nil {
-		e.ping = newInitialPing(h.proxy, pc.Protocol)
+		// Use the protocol the client sent in its handshake: pc.Protocol is the protocol of the
+		// packet registry in use, which is the lowest supported version for unknown clients.
+		e.ping = newInitialPing(h.proxy, h.conn.Protocol())
 	} else {
 		var err error
 		var res *packet.StatusResponse
